@@ -176,6 +176,18 @@ func normalizeOnce(dir string) (files []*nfile, changed bool, notes []string, de
 							notes = append(notes, fmt.Sprintf("switch at %s:%d read as an if/else-if chain", filepath.Base(f.path), fset.Position(sw.Pos()).Line))
 						}
 					}
+					// `for { if c { break }; … }`  ⇒  `for !(c) { … }`
+					if fs, ok := n.(*ast.ForStmt); ok && fs.Init == nil && fs.Cond == nil && fs.Post == nil && len(fs.Body.List) > 1 {
+						if is, ok := fs.Body.List[0].(*ast.IfStmt); ok && is.Init == nil && is.Else == nil && len(is.Body.List) == 1 {
+							if br, ok := is.Body.List[0].(*ast.BranchStmt); ok && br.Tok == token.BREAK && br.Label == nil {
+								a, b := f.off(fs.Pos()), f.off(is.End())
+								if !f.overlaps(a, b) {
+									f.add(a, b, "for !("+f.text(is.Cond)+") {")
+									notes = append(notes, fmt.Sprintf("loop at %s:%d read as `for !cond`", filepath.Base(f.path), fset.Position(fs.Pos()).Line))
+								}
+							}
+						}
+					}
 					return true
 				})
 			}
@@ -796,6 +808,40 @@ func inlineText(h *helper, f *nfile, caller *ast.FuncDecl, s ast.Stmt, c *ast.Ca
 			needLabel = true
 		}
 	}
+	// the error-propagation idiom `if v := h(…); v != nil { return v }` in a caller with a
+	// single result: a `return X` of the helper with a pure X is then also spelled as the
+	// caller's own `return X` (guarded by X != nil), so that rules about what the caller
+	// returns still see it
+	forward := false
+	if is, ok := s.(*ast.IfStmt); ok && is.Else == nil && len(rtmp) == 1 && caller.Type.Results != nil && len(caller.Type.Results.List) == 1 && len(caller.Type.Results.List[0].Names) <= 1 {
+		var v string
+		if as, ok := is.Init.(*ast.AssignStmt); ok && len(as.Lhs) == 1 {
+			if id, ok := as.Lhs[0].(*ast.Ident); ok {
+				v = id.Name
+			}
+		}
+		if be, ok := is.Cond.(*ast.BinaryExpr); ok && v != "" && be.Op == token.NEQ {
+			x, okx := be.X.(*ast.Ident)
+			y, oky := be.Y.(*ast.Ident)
+			if okx && oky && x.Name == v && y.Name == "nil" && len(is.Body.List) == 1 {
+				if rs, ok := is.Body.List[0].(*ast.ReturnStmt); ok && len(rs.Results) == 1 {
+					if rid, ok := rs.Results[0].(*ast.Ident); ok && rid.Name == v {
+						forward = true
+					}
+				}
+			}
+		}
+	}
+	pureRet := func(e ast.Expr) bool {
+		switch x := e.(type) {
+		case *ast.Ident:
+			return x.Name != "nil"
+		case *ast.SelectorExpr:
+			_, ok := x.X.(*ast.Ident)
+			return ok
+		}
+		return false
+	}
 	bs, be := hf.off(body.Lbrace)+1, hf.off(body.Rbrace)
 	var bedits []edit
 	for _, r := range rets {
@@ -816,6 +862,10 @@ func inlineText(h *helper, f *nfile, caller *ast.FuncDecl, s ast.Stmt, c *ast.Ca
 			as = strings.Join(rtmp, ", ") + " = " + strings.Join(rs, ", ") + "; "
 		}
 		last := lastIsRet && r == body.List[len(body.List)-1]
+		if forward && len(r.Results) == 1 && pureRet(r.Results[0]) {
+			x := hf.text(r.Results[0])
+			as = "if " + x + " != nil { return " + x + " }; " + as
+		}
 		txt := "{ " + as
 		if needLabel && !last {
 			txt += "break " + id + "; "
